@@ -5,10 +5,10 @@ sys.path.insert(0, os.path.dirname(os.path.abspath(__file__)))
 import seeded
 sys.path.insert(0, seeded.VERIF)
 d, prop, code = sys.argv[1], sys.argv[2], sys.argv[3]
-t = None
+_wt = None
 root = None
 if d != "-":
-    t, root = seeded.scratch(os.path.join(d, "patch.diff"))
+    _wt, root = seeded.scratch(os.path.join(d, "patch.diff"))
 try:
     from prsa.__main__ import Run
     from prsa.terms import *
@@ -17,5 +17,5 @@ try:
     src = open(code).read() if os.path.exists(code) else code
     exec(src)
 finally:
-    if t:
-        seeded.cleanup(t)
+    if _wt:
+        seeded.cleanup(_wt)
